@@ -6,7 +6,7 @@ use vbase::gens::{self, DocParams};
 use vbase::refjson::{self, classify_number, show_bytes, trunc, Kind, Node, NumClass};
 use vbase::{ensure, fail};
 
-pub const RULE: &str = "cases are well-formed JSON texts t (generated with duplicate keys, escapes, every number class, layout variation; golden documents; corpus files). v = parse(t), s = to_string(v): parse(s) == v, to_string(parse(s)) == s byte for byte, the reference trees of s and t have identical key sequences at every object (order and duplicates kept), every integer-class literal reappears with its canonical digits, every float keeps its f64 bits, strings keep their decoded text; Display, to_string and to_vec agree; pretty output re-parses to v and equals reindent(s). In the sort_keys build every object's keys are ascending and the multiset of members is unchanged; in raw-number mode (use_rawnumber / arbitrary_precision build) every number token of s is byte-identical to the literal in t. Non-trivial = an object with >= 2 members or a float needing >= 15 significant digits; distinct by text.";
+pub const RULE: &str = "cases are well-formed JSON texts t (generated with duplicate keys, escapes, every number class, layout variation; golden documents; corpus files). v = parse(t), s = to_string(v): parse(s) == v, to_string(parse(s)) == s byte for byte, the reference trees of s and t have identical key sequences at every object (order and duplicates kept), every integer-class literal reappears with its canonical digits, every float keeps its f64 bits, strings keep their decoded text; Display, to_string and to_vec agree; pretty output re-parses to v and equals reindent(s). In the sort_keys build every object's members are the stable sort of the source members by key (ascending, members sharing a key keep their order); in raw-number mode (use_rawnumber / arbitrary_precision build) every number token of s is byte-identical to the literal in t. Non-trivial = an object with >= 2 members or a float needing >= 15 significant digits; distinct by text.";
 pub const ASSUMPTIONS: &[&str] = &["refjson parser", "Rust std float parsing"];
 
 /// compare the reference trees of source t and output s
@@ -77,24 +77,19 @@ fn cmp_trees(a: &Node, t: &[u8], b: &Node, s: &[u8], raw: bool, sorted: bool, pa
                         return bad("sort-order", path, format!("keys {:?} and {:?} are not ascending", w[0].0.text, w[1].0.text));
                     }
                 }
-                // same multiset: match each output member with an unused source member
-                let mut used = vec![false; x.len()];
-                for (k, q) in y {
-                    let mut found = false;
-                    for (i, (kk, p)) in x.iter().enumerate() {
-                        if used[i] || kk.text != k.text {
-                            continue;
-                        }
-                        let mut pp = path.clone();
-                        pp.push_str(&format!(".{}", trunc(&k.text, 16)));
-                        if cmp_trees(p, t, q, s, raw, sorted, &mut pp).is_ok() {
-                            used[i] = true;
-                            found = true;
-                            break;
-                        }
+                // "nothing else changes": the output is the stable sort of the source members, so
+                // members sharing a key keep their relative order (and `get` its first-match answer)
+                let mut order: Vec<usize> = (0..x.len()).collect();
+                order.sort_by(|&i, &j| x[i].0.text.cmp(&x[j].0.text));
+                for (&i, (kk, q)) in order.iter().zip(y.iter()) {
+                    let (k, p) = &x[i];
+                    if k.text != kk.text {
+                        return bad("members", path, format!("output member {:?} where the sorted source has {:?}", kk.text, k.text));
                     }
-                    if !found {
-                        return bad("members", path, format!("output member {:?} has no counterpart in the source object", k.text));
+                    let mut pp = path.clone();
+                    pp.push_str(&format!(".{}", trunc(&k.text, 16)));
+                    if let Err((kind, m)) = cmp_trees(p, t, q, s, raw, sorted, &mut pp) {
+                        return Err((if kind == "members" || kind == "sort-order" { kind } else { "sorted-member" }, format!("{m} (members sharing a key must keep their source order)")));
                     }
                 }
                 return Ok(());
@@ -204,6 +199,37 @@ pub fn run(ctx: &Ctx) {
         out.extend_from_slice(b"],\"m\":");
         gens::gen_number(src, false, &mut out);
         out.push(b'}');
+        out
+    });
+    // wide objects (more members than any small-sort cutoff), keys from a small pool so that many repeat
+    ctx.search(s, "wide-objects", ctx.n(60_000, 600_000), 400, &|src: &mut Src| {
+        let n = *src.pick(&[21usize, 22, 24, 30, 33, 40, 64, 65, 100]) + src.below(4);
+        let pool = *src.pick(&[3usize, 5, 8, 20, 200]);
+        let nested = src.chance(30);
+        let mut out = if nested { b"[1,{\"w\":".to_vec() } else { Vec::new() };
+        out.push(b'{');
+        for i in 0..n {
+            if i > 0 {
+                out.push(b',');
+            }
+            let k = src.below(pool);
+            match src.below(4) {
+                0 => out.extend_from_slice(format!("\"k{k}\":").as_bytes()),
+                1 => out.extend_from_slice(format!("\"{}\":", "zyxwvutsrqponmlkjihgfedcba".get(k % 26..k % 26 + 1).unwrap()).as_bytes()),
+                2 => out.extend_from_slice(format!("\"\\u006b{k}\":").as_bytes()),
+                _ => out.extend_from_slice(format!("\"{}\":", k * 7919 % 100).as_bytes()),
+            }
+            match src.below(4) {
+                0 => out.extend_from_slice(format!("{i}").as_bytes()),
+                1 => out.extend_from_slice(format!("\"v{i}\"").as_bytes()),
+                2 => out.extend_from_slice(format!("[{i}]").as_bytes()),
+                _ => out.extend_from_slice(format!("{{\"b\":{i},\"a\":{i},\"b\":null}}").as_bytes()),
+            }
+        }
+        out.push(b'}');
+        if nested {
+            out.extend_from_slice(b"}]");
+        }
         out
     });
     let mut list = gens::golden_docs();
